@@ -224,15 +224,26 @@ def plan_C17(b, tier, seed):
 def plan_C18(b, tier, seed):
     return [lambda: toy_replay(b, "container", "MC_Container", "zoo", "all", workers=8, label="A:container:zoo")]
 
+def curves_bin(b): return b.replace("vh-core", "vh-curves")
+def B_pairing(b, engine, seed, n, timeout=1500):
+    binp = b if engine == "bls12_381" else curves_bin(b)
+    return lambda: trace_validate(binp, "pairing", "Trace_Pairing", engine, seed, n, timeout=timeout, label="B:pairing:%s:seed%d:n%d" % (engine, seed, n))
+def plan_C06(b, tier, seed):
+    if tier == "quick":
+        return [B_pairing(b, e, seed, 220) for e in ("bls12_381", "bls12_377", "bn254", "bw6_761", "bw6_767", "mnt4_298", "mnt6_298")] + \
+               [B_pairing(b, e, seed, 60) for e in ("mnt4_753", "mnt6_753")]
+    return [B_pairing(b, e, seed + k, 1500, 3000) for e in ("bls12_381", "bls12_377", "bn254", "bw6_761", "bw6_767", "mnt4_298", "mnt6_298", "mnt4_753", "mnt6_753", "bls12_381c") for k in range(2)]
+
 LIT_CFGS = ["z1a", "z2b", "z4a", "z13a", "m127", "c25519", "g64", "z6c"]
 def plan_C20(b, tier, seed):
     hc = LIT_CFGS + [c + "h" for c in LIT_CFGS]
     jobs = literal_jobs(LIT_CFGS, hc)
     return [(lambda j=j: j) for j in jobs]
 
-PLANS = {"C20": plan_C20, "C18": plan_C18, "C17": plan_C17, "C05": plan_C05, "C09": plan_C09, "C10": plan_C10, "C11": plan_C11, "C19": plan_C19, "C07": plan_C07, "C08": plan_C08, "C03": plan_C03, "C04": plan_C04, "C12": plan_C12, "C01": plan_C01, "C02": plan_C02, "C15": plan_C15}
+PLANS = {"C06": plan_C06, "C20": plan_C20, "C18": plan_C18, "C17": plan_C17, "C05": plan_C05, "C09": plan_C09, "C10": plan_C10, "C11": plan_C11, "C19": plan_C19, "C07": plan_C07, "C08": plan_C08, "C03": plan_C03, "C04": plan_C04, "C12": plan_C12, "C01": plan_C01, "C02": plan_C02, "C15": plan_C15}
 
 RULES = {
+ "C06": "B: seeded programs on every pairing engine (BLS12-381 M-twist, BLS12-377 D-twist, BN254, BW6-761, BW6-767, MNT4-298/753, MNT6-298/753): registers of G1, G2, GT are loaded with known multiples of the generators (scalars 0, 1, 2, r-1, small, random), combined with add / neg / scalar multiplication, paired (single pairing, multi-pairing of 0,1,2,3,4,5,9 pairs, prepared inputs, Miller loop + final exponentiation, product of single pairings) and combined in GT (mul, inverse, power); after every step the set of registers equal to the written one, its identity-ness and - for GT - order-divides-r / Valid::check are logged and TLC requires the partition to be the partition of the discrete logarithms a*b. non-trivial = written register is not the identity",
  "C20": "A: for 8 moduli of the zoo (1, 2, 4, 6, 13 limbs; with / without spare bit; Mersenne 2^127-1, 2^255-19, Goldilocks), derived and hand-written configuration: TLC generates every literal sign x {decimal, 0x, 0X, 0o, 0O, 0b, 0B} x {0, 2 leading zeros} x 21 values (0, 1, 2, 10, 15, 16, 255, 2^32, 2^64-1, 2^64, 2^64+1, (p-1)/2, p-2, p-1, p, p+1, 2p, 2p+1, 2^(64N-1), (2^64N)/3, 2^(64N)-1) with the value it must denote; all ~800 literals per modulus are compiled as MontFp! / BigInt! constants and the constant's raw Montgomery limbs are compared with the run-time element of the same value; plus the derive macro's limb count, modulus limbs, R, R2, INV, bit size, two-adicity, generator and 2-adic root against their definitions",
  "C18": "A: a zoo of 44 composite types (all integer widths and signs, usize, bool, Option, Vec / VecDeque / LinkedList incl. nested, tuples, arrays, String, BigUint, BTreeSet, BTreeMap, Rc / Arc / Cow, the four derive shapes named / tuple / nested-tuple / generic, and the mode-pinning wrappers around the only mode-dependent leaf - points of a toy curve - alone, inside Vec and inside tuples): every value built from tiny leaf domains up to length 2 x both ambient modes: bytes, advertised size, exact-size buffer; a structured set of ~4700 byte strings per type (every payload of <= 3 bytes over an alphabet with ASCII, valid 2-byte UTF-8, lone continuation byte, 0xFF; behind every length prefix in {0..4, 2^16, 2^40, 2^62, 2^64-1}): error vs value, decoded value, bytes consumed; panics and aborts are violations",
  "C17": "A: MleMachine over toy fields: ALL tables for 0..3 variables over F_3 (6561 tables), 0..2 over F_5, 0..1 over F_7; all ordered pairs of tables x add/sub/scaled add/eq/concat; every table x evaluation at EVERY point of F_p^n, fix_variables for every partial assignment of every length, every relabel window (also those touching the last variable), neg, scaling by {0,1,2,-1}, index, to_evaluations; every operation in the dense AND the sparse form; multivariate sparse polynomials: every term list of <= 2 terms over 2 variables (duplicate monomials, zero coefficients, unordered variables) x every point for evaluate / neg and selected points for add / sub",
@@ -254,10 +265,16 @@ RULES = {
 def _glv_outside(mm, params):
     e = mm.get("event") or {}
     return mm.get("cfg") in params.get("cfgs", []) and e.get("op") == "mul" and e.get("outside") is True
-PREDICATES = {"glv_mul_outside_subgroup": _glv_outside}
+def _mnt_identity(mm, params):
+    e = mm.get("event") or {}
+    return mm.get("cfg") in params.get("cfgs", []) and e.get("op") == "pair" and e.get("has_identity") is True
+PREDICATES = {"glv_mul_outside_subgroup": _glv_outside, "mnt_pairing_identity": _mnt_identity}
+NEEDS_CURVES = {"C06", "C16", "C02", "C12", "C04", "C13"}
 HOOK_COMMITS = ["b2d3621", "63ec7b9", "7c991e8"]
 NOT_APPLICABLE = {}
 META = {
+ "C06": {"text": "PairingMachine is the abstract bilinear group on discrete logarithms (e(a g1, b g2) = ab e(g1,g2), multi-pairing = sum); TLC validates traces of the real engines through equality patterns only, which is what bilinearity, additivity, non-degeneracy (log e(g1,g2) = 1), identity preservation, multi-pairing = product and prepared = unprepared mean observationally; every output is also checked to have order dividing r.",
+         "note": "No toy pairing curves; the specification does not compute pairing values (a consistent different bilinear non-degenerate map would be accepted - it would be a valid pairing). MNT4/MNT6 with identity inputs is a recorded known finding."},
  "C20": {"text": "MC_Literal specifies the denotation of a literal (sign, radix prefix in either case, leading zeros, reduction modulo p with p - (|v| mod p) for negative values) and of the derive macro's constants; TLC generates the literal grid, `check` compiles it with the real proc-macros and const fns (gen_lit.rs is regenerated and the harness rebuilt when the grid changes) and the harness compares every constant with the value TLC computed and with the run-time element.",
          "note": "The grid is boundary-exhaustive, not all strings. Literals that must be rejected at compile time (BigInt! of a negative or oversized value) cannot be part of a compiled table and are not exercised."},
  "C18": {"text": "ContainerCodec defines Enc / Dec for a grammar of type descriptors as total functions (length prefixes, bool and UTF-8 validity, set / map normalisation, mode pinning); TLC checks Dec(Enc(v)) = v with n = size for every value of the zoo and emits every encode and decode case, which the harness replays through serialize_with_mode, the shorthand methods, by-reference impls and exact-size buffers.",
